@@ -20,7 +20,7 @@ func init() {
 
 // CallQuantize runs Context.Quantize on fresh operands.
 func CallQuantize(ctx *apd.Context, x dec.D, e int64) Outcome {
-	d := new(apd.Decimal)
+	d := usedDestination(x)
 	res, err := ctx.Quantize(d, br.ToApd(x), int32(e))
 	return Outcome{Res: br.FromApd(d), Flags: res, Err: err, Raw: d}
 }
